@@ -828,7 +828,11 @@ fn check_sort_unique(arr: &[J], text: &[u8], st: &mut Stats) -> Result<(), Fail>
                     J::Arr(o) => {
                         if o.len() != arr.len() {
                             Err("length")
-                        } else if o.windows(2).any(|w| jq_cmp(&w[0], &w[1]) == Ordering::Greater) {
+                        } else if !ambiguous && o.windows(2).any(|w| jq_cmp(&w[0], &w[1]) == Ordering::Greater) {
+                            // (with a pair of literals equal as doubles but different as exact
+                            // decimals anywhere in the input, the order between the values that
+                            // contain them is decided by the exact comparison, which the
+                            // double-based model cannot predict: only the multiset is checked)
                             Err("not-ordered")
                         } else if !same_multiset(o, arr) {
                             Err("not-a-permutation")
@@ -854,7 +858,9 @@ fn check_sort_unique(arr: &[J], text: &[u8], st: &mut Stats) -> Result<(), Fail>
                     J::Arr(o) => {
                         let bad_order = o.windows(2).any(|w| match jq_cmp(&w[0], &w[1]) {
                             Ordering::Less => false,
-                            Ordering::Greater => true,
+                            // (see sort above: with an ambiguous literal pair in the input the
+                            // exact comparison decides, the double-based model cannot)
+                            Ordering::Greater => !ambiguous,
                             // equal as doubles: only tolerable when the array holds literals
                             // that differ in exact value but not as doubles
                             Ordering::Equal => !ambiguous || exact_eq(&w[0], &w[1]),
